@@ -96,6 +96,11 @@ type sched struct {
 	last  int
 }
 
+// Active reports whether a simulated run is in progress in this process.
+//
+//go:norace
+func Active() bool { return current() != nil }
+
 // Stuck is 1 while a run that exceeded its step budget has not returned yet.
 var Stuck int32
 
